@@ -112,6 +112,7 @@ func lemmaRT{n}(tag int, v {gt}, rest []byte) (x {gt}, err error, out, wb []byte
     out.append(f'''//@ lemma lemmaWRW{n}
 //@   requires 0 <= tag && tag < 1<<24 && hdOK(in)
 //@   ensures err1 == nil ==> err2 == nil && {eq2} && bytes_eq(w1, w2)
+//@   cover err1 == nil
 
 func lemmaWRW{n}(tag int, in []byte) (v1, v2 {gt}, err1, err2 error, w1, w2 []byte) {{
 	dec, err := newTTLVReader(in)
